@@ -1122,7 +1122,7 @@ pub fn c17(ctx: &mut Ctx) -> String {
         let good = if gambit { to_efg_file(&mut nrng, &ng, &names, k, false, &EfgFeat::default()).text } else { to_json_file(&ng, &names) };
         // (corrupted text, expected diagnostic category, "" when only rejection is required,
         //  "accept" when the text is a valid game)
-        let kind = ctx.rng.below(if gambit { 18 } else { 13 });
+        let kind = ctx.rng.below(if gambit { 20 } else { 13 });
         let mut other_format = false;
         let (bad, what, expect): (String, &str, &str) = if !gambit {
             match kind {
@@ -1188,6 +1188,10 @@ pub fn c17(ctx: &mut Ctx) -> String {
                 }
                 15 => (cross_player_name(&good), "one-name-for-infosets-of-both-players", "accept"),
                 16 => (outcome_arity(&good), "three-payoffs-behind-a-forward-reference", ""),
+                17 | 18 => {
+                    let v = ctx.rng.below(8) as usize;
+                    (cancelling_infinities(&good, v), "overflows-of-opposite-sign-along-one-path", "non-finite|gambit-error")
+                }
                 _ => {
                     other_format = true;
                     (good.clone(), "valid-gambit-read-as-json", "json-error")
@@ -1329,6 +1333,42 @@ fn perturb_payoff(s: &str) -> String {
             }
         }
     }
+}
+
+/// A new chance root above the valid game: the other branch carries an interior outcome whose
+/// payoff for one player overflows a double, above terminals whose payoff for the same player
+/// overflows with the opposite sign, so that the cumulative payoff along those paths is not a
+/// number while every other terminal of the file stays finite.
+fn cancelling_infinities(s: &str, variant: usize) -> String {
+    let mut at = None;
+    let mut pos = 0;
+    for line in s.split_inclusive('\n') {
+        if pos > 0 && (line.starts_with("c ") || line.starts_with("p ") || line.starts_with("t ")) {
+            at = Some(pos);
+            break;
+        }
+        pos += line.len();
+    }
+    let at = match at {
+        None => return s.to_string(),
+        Some(a) => a,
+    };
+    let (up, down) = if variant & 1 == 0 { ("1e999", "-1e999") } else { ("-1e999", "1e999") };
+    let two = variant & 2 == 0;
+    let pay = |a: &str, b: &str| if two { format!("{{ {}, {} }}", a, b) } else { format!("{{ {}, {} }}", b, a) };
+    let interior = if variant & 4 == 0 {
+        format!("p \"\" 1 987002 \"cancelinf\" {{ \"a\" \"b\" }} 987003 \"\" {}\n", pay("0", up))
+    } else {
+        format!("c \"\" 987002 \"\" {{ \"a\" 1/4 \"b\" 3/4 }} 987003 \"\" {}\n", pay("0", up))
+    };
+    let mut out = String::new();
+    out.push_str(&s[..at]);
+    out.push_str("c \"\" 987001 \"\" { \"l\" 1/2 \"r\" 1/2 } 0\n");
+    out.push_str(&interior);
+    out.push_str(&format!("t \"\" 987004 \"\" {}\n", pay("1", down)));
+    out.push_str(&format!("t \"\" 987005 \"\" {}\n", pay("-1", down)));
+    out.push_str(&s[at..]);
+    out
 }
 
 fn huge_payoffs(s: &str) -> String {
